@@ -75,6 +75,7 @@ type Exec struct {
 	backReach       []string // reach condition of every loop back edge (top-level function), for the vacuity cover
 	backPos         []string
 	returnPos       []string
+	entryArgs       []Val // symbolic parameters of the unit at entry (for counterexample replay)
 	coverAcc        map[string][]string
 	spawnsAllowed   bool
 	chainAxioms     bool
